@@ -963,14 +963,8 @@ class Executor:
             return self.st_With(st, ast.With(items=s.items[:1], body=[inner]))
         item = s.items[0]
         out = []
-        for p in self.ev(st, item.context_expr):
-            if p.kind != "normal":
-                out.append(p)
-                continue
-            r = self.model.with_enter(self, p.st, p.val, s)
-            if r is NotImplemented:
-                raise Unsupported(f"with on {p.val!r}")
-            entered, exit_fn = r
+
+        def body(entered, exit_fn):
             for q in entered:
                 if q.kind != "normal":
                     out.append(q)
@@ -985,6 +979,27 @@ class Executor:
                             out.append(Path(f.st))  # suppressed
                         else:
                             out.append(Path(f.st, b.kind, b.val))
+        ce = item.context_expr
+        gd = self.find_def(ce.func.id) if isinstance(ce, ast.Call) and isinstance(ce.func, ast.Name) and not ce.keywords else None
+        if gd is not None and self.model.name(self, st, ce.func.id) is NotImplemented and any(
+                (isinstance(d, ast.Name) and d.id == "contextmanager") or (isinstance(d, ast.Attribute) and d.attr == "contextmanager")
+                for d in gd.decorator_list) and len(gd.args.args) == len(ce.args):
+            # a @contextmanager generator function of the module under verification: inlined (code before the yield on
+            # entry; code after a bare yield only on normal exit, a try/finally around the yield on every exit)
+            outs, raised = self.ev_list(st, list(ce.args))
+            out += raised
+            for s2, vals in outs:
+                entered, exit_fn, _ = self.inline_contextmanager(s2, gd, dict(zip([a.arg for a in gd.args.args], vals)))
+                body([Path(p.st, p.kind, NONE if p.kind == "normal" else p.val) for p in entered], exit_fn)
+            return out
+        for p in self.ev(st, ce):
+            if p.kind != "normal":
+                out.append(p)
+                continue
+            r = self.model.with_enter(self, p.st, p.val, s)
+            if r is NotImplemented:
+                raise Unsupported(f"with on {p.val!r}")
+            body(*r)
         return out
 
     def inline_contextmanager(self, st, gen_def, frame_vars):
